@@ -11,10 +11,10 @@ EXTENDS WildcardOps, FiniteSets, TLC, Json
 
 CONSTANTS MaxEntries, DevDropTrailing
 
-\* "k" "k2" | "py" "s" | "f" "fn" | "a" "ab" "*"
+\* "k" "k2" | "py" "s" | "f" "f:n" | "a" "ab" "*"
 InvNames == {<<107>>, <<107, 50>>}
 Domains  == {<<112, 121>>, <<115>>}
-Types    == {<<102>>, <<102, 110>>}
+Types    == {<<102>>, <<102, 58, 110>>}   \* "f", "f:n" (an object type may itself contain a colon)
 Targets  == {<<97>>, <<97, 98>>, <<42>>}
 Universe == InvNames \X Domains \X Types \X Targets
 
